@@ -305,6 +305,9 @@ type Op struct {
 	// Reuse: aggregate on the GroupedDataFrame object of the previous groupby/groupagg step of this history
 	// (same frame, same key) instead of calling Groupby again; not visible to the model, which is stateless
 	Reuse bool `json:"reuse,omitempty"`
+	// ViaFile: use the file variants ToCSV(filename) / FromCSV(filename) on a temporary file instead of
+	// the Writer/Reader variants (same observable behaviour; not visible to the model)
+	ViaFile bool `json:"viafile,omitempty"`
 }
 
 type GroupObs struct {
